@@ -45,6 +45,16 @@ def _env_is(name, x):
     return c is None or x == c
 
 
+def _no_delims(t):
+    """quick tier (VP_NODELIM=1): the symbolic text holds none of ',', '(' , ')' - the surface structure of the
+    annotation is then the template's (structure-changing texts are C02's subject; thorough keeps them)"""
+    if R.env_int("VP_NODELIM", 0):
+        for ch in t:
+            if ch == "," or ch == "(" or ch == ")":
+                return False
+    return True
+
+
 # =============================================================================================== kernel 1
 # body of the definition group after the Definition tag; chosen by a solver-enumerated index
 _SHAPES = ["",                                  # 0  no content group
@@ -87,6 +97,8 @@ def _acc_pre(name, sfx, shape):
     if lo is not None and not (lo <= shape <= hi):
         return False
     if not (1 <= len(name) <= R.N(2)) or not R.scell(name) or not R.ascii_printable(name):
+        return False
+    if not _no_delims(name):
         return False
     if _c03_hash_term(flat(name)):
         return False
@@ -134,7 +146,7 @@ def _dup_pre(k, n2, via):
         return False
     if not (1 <= len(n2) <= R.N(2)) or not R.scell(n2) or not R.ascii_printable(n2):
         return False
-    return not _c03_hash_term(flat(n2))
+    return _no_delims(n2) and not _c03_hash_term(flat(n2))
 
 
 def def_duplicate(k: int, n2: str, via: int) -> bool:
@@ -144,7 +156,7 @@ def def_duplicate(k: int, n2: str, via: int) -> bool:
     """
     s1 = "(Definition/" + _FIRST[k] + ", (B))"
     s2 = "(Definition/" + flat(n2) + "/#, (C/#))"
-    acc, dups = D.accept_all([s1, s2])
+    acc, dups = D.accept_all([s1 + ", " + s2] if via == 1 else [s1, s2])
     if via == 0:                                   # two strings into one dictionary
         dd = DefinitionDict()
         dd.defs = dict()
@@ -161,14 +173,14 @@ def def_duplicate(k: int, n2: str, via: int) -> bool:
         a, b = DefinitionDict(), DefinitionDict()
         a.defs, b.defs = dict(), dict()
         i1 = a.check_for_definitions(HedString(s1, MINI))
-        i1 = i1 + b.check_for_definitions(HedString(s2, MINI))
+        b.check_for_definitions(HedString(s2, MINI))
         dd = DefinitionDict()
         dd.defs = dict()
         dd.add_definitions([a, b])
         reported = len(dd.issues)
     if i1 != [] or not _entries_match(dd, acc):
         return False
-    for ok, e, broken in D.candidates(s2):
+    for ok, e, broken in D.candidates(s1 + ", " + s2 if via == 1 else s2):
         if not ok:
             return True                            # rejected for another reason: what is reported is not C09's
     return reported == dups                        # a duplicate is reported (once), nothing else is
@@ -239,14 +251,42 @@ def _kf_no_reexpand(uses, ops):
 
 
 def _alg_pre(nm, v, form, pos, n, o1, o2, o3):
-    # -- bounds and cell (cheap, concrete)
-    if not (0 <= n <= R.M(3) and 0 <= form <= 1 and 0 <= pos <= 3):
+    # -- cell and small ranges first, then the texts, the operation sequence last: a path that is going to be
+    #    rejected because of nm / v is then rejected once, not once per operation sequence
+    if not (0 <= form <= 1 and 0 <= pos <= 3):
         return False
-    if not (_env_is("VP_NOPS", n) and _env_is("VP_FORM", form) and _env_is("VP_POS", pos)):
-        return False
-    if not (R.env_int("VP_NLO", 0) <= n <= R.env_int("VP_NHI", 3)):
+    if not (_env_is("VP_FORM", form) and _env_is("VP_POS", pos)):
         return False
     if pos not in _POSITIONS[R.env_int("VP_POSSET", 1)]:
+        return False
+    if len(v) > R.N(2) or not R.scell(v) or len(nm) != 2:
+        return False
+    if pos != 1 and len(v) > R.env_int("VP_NV", 0):
+        return False                     # the long values go with the annotation 'G, (U, B)'
+    if not R.ascii_printable(nm) or not R.ascii_printable(v) or not _no_delims(v):
+        return False
+    nm, v = flat(nm), flat(v)
+    # -- the label is one of the defined ones, any letter case
+    e = D.lookup(_REF_DEFS, nm)
+    if e is None:
+        return False
+    if not e.takes_value and len(v) > R.env_int("VP_NV", 0):
+        return False                     # a value on a definition that takes none: one short representative
+    w = R.env_int("VP_WHICH")
+    if w is not None and e is not _REF_DEFS[w]:
+        return False
+    if _REF_DEFS.index(e) >= R.env_int("VP_NDEFS", len(_REF_DEFS)):
+        return False
+    if form == 1:                        # a written Def-expand group is the result of an expansion (E2/E4)
+        if e.takes_value != (len(v) > 0):
+            return False
+        u = _use_text(nm, v, form)
+        if u is None or D.defexpand_valid(u, _REF_DEFS) is not True:
+            return False
+    # -- operation sequence
+    if not (0 <= n <= R.M(3)) or not _env_is("VP_NOPS", n):
+        return False
+    if not (R.env_int("VP_NLO", 0) <= n <= R.env_int("VP_NHI", 3)):
         return False
     for i, o in enumerate((o1, o2, o3)):
         if i < n:
@@ -256,33 +296,16 @@ def _alg_pre(nm, v, form, pos, n, o1, o2, o3):
             return False
     if n >= 1 and not _env_is("VP_O1", o1):
         return False
-    if len(v) > R.N(2) or not R.scell(v) or len(nm) != 2:
-        return False
-    if not R.ascii_printable(nm) or not R.ascii_printable(v):
-        return False
-    nm, v = flat(nm), flat(v)
-    # -- the label is one of the defined ones, any letter case (unknown labels: expand_unknown_label)
-    e = D.lookup(_REF_DEFS, nm)
-    if e is None:
-        return False
-    w = R.env_int("VP_WHICH")
-    if w is not None and e is not _REF_DEFS[w]:
-        return False
-    if _REF_DEFS.index(e) >= R.env_int("VP_NDEFS", len(_REF_DEFS)):
-        return False
-    if form == 1:                        # a written Def-expand group is the result of an expansion (E2/E4)
-        u = _use_text(nm, v, form)
-        if u is None or D.defexpand_valid(u, _REF_DEFS) is not True:
-            return False
     # -- known findings
-    uses = D.uses(_annotation(nm, v, form, pos), _REF_DEFS)
     ops = _ops(n, o1, o2, o3)
-    if _HARDWIRED or R.known_active("C09-double-expand-cycle"):
-        if _kf_double_expand(uses, ops):
-            return False
-    if _HARDWIRED or R.known_active("C09-shrunk-def-expand-not-reexpanded"):
-        if _kf_no_reexpand(uses, ops):
-            return False
+    if EXPAND in ops:
+        uses = D.uses(_annotation(nm, v, form, pos), _REF_DEFS)
+        if _HARDWIRED or R.known_active("C09-double-expand-cycle"):
+            if _kf_double_expand(uses, ops):
+                return False
+        if _HARDWIRED or R.known_active("C09-shrunk-def-expand-not-reexpanded"):
+            if _kf_no_reexpand(uses, ops):
+                return False
     return True
 
 
@@ -375,7 +398,11 @@ def _dx_pre(nm, v, w, shape):
         return False
     if len(nm) != 2 or len(v) > R.N(1) or len(w) > R.N(1) or not R.scell(v):
         return False
+    if shape != 0 and (len(v) > R.env_int("VP_NV", 1) or len(w) > R.env_int("VP_NV", 1)):
+        return False                     # the long values go with the exact shape
     if not (R.ascii_printable(nm) and R.ascii_printable(v) and R.ascii_printable(w)):
+        return False
+    if not (_no_delims(v) and _no_delims(w)):
         return False
     e = D.lookup(_REF_DEFS, flat(nm))
     if e is None:
@@ -383,7 +410,7 @@ def _dx_pre(nm, v, w, shape):
     i = _REF_DEFS.index(e)
     if not _env_is("VP_WHICH", i) or i >= R.env_int("VP_NDEFS", len(_REF_DEFS)):
         return False
-    if not e.takes_value and len(w) > 0:
+    if not e.takes_value and (len(w) > 0 or len(v) > R.env_int("VP_NV", 1)):
         return False                     # nowhere to plug w: keep one representative
     if shape == 7 and i != 4:
         return False
@@ -460,16 +487,28 @@ _OUT = ("definition sets other than the fixed five; unit-carrying placeholders b
         "(pandas); def_expand_gather; non-ASCII text")
 
 
+def _acc_cells_quick():
+    out = []
+    for sfx in (0, 1):
+        out.append({"VP_SFX": sfx, "VP_LEN": 1})
+        out.append({"VP_SFX": sfx, "VP_LEN": 2, "VP_SHAPE_LO": 0, "VP_SHAPE_HI": 5})
+        out.append({"VP_SFX": sfx, "VP_LEN": 2, "VP_SHAPE_LO": 6, "VP_SHAPE_HI": 11})
+    return out
+
+
 def _acc_cells(n):
     return R.product_cells(R.int_cells("VP_SFX", 0, 1), R.str_cells(n, split1_from=2, split2_from=3, minlen=1))
 
 
-def _alg_cells(ndefs):
+def _alg_cells(ndefs, split3=True):
     out = []
     for w in range(ndefs):
-        for c in ({"VP_NLO": 0, "VP_NHI": 2}, {"VP_NOPS": 3, "VP_O1": 0}, {"VP_NOPS": 3, "VP_O1": 1},
-                  {"VP_NOPS": 3, "VP_O1": 2}):
-            out.append(dict(c, VP_WHICH=w, VP_FORM=0))
+        if split3:
+            for c in ({"VP_NLO": 0, "VP_NHI": 2}, {"VP_NOPS": 3, "VP_O1": 0}, {"VP_NOPS": 3, "VP_O1": 1},
+                      {"VP_NOPS": 3, "VP_O1": 2}):
+                out.append(dict(c, VP_WHICH=w, VP_FORM=0))
+        else:
+            out.append({"VP_WHICH": w, "VP_FORM": 0})
         out.append({"VP_WHICH": w, "VP_FORM": 1})
     return out
 
@@ -484,7 +523,7 @@ def _dx_cells(ndefs):
 
 HARNESSES = [
     R.H("def_accept", _T_ACC,
-        quick=R.tier(cells=_acc_cells(2), env={"VP_N": 2}, timeout=200,
+        quick=R.tier(cells=_acc_cells_quick(), env={"VP_N": 2, "VP_NODELIM": 1}, timeout=300,
                      bound="'(Definition/' + name + ['/#'] + body + ')' for every printable-ASCII name with "
                            "1 <= len(name) <= 2 (not starting '#/'), both suffix choices, 12 fixed bodies"),
         thorough=R.tier(cells=_acc_cells(3), env={"VP_N": 3}, timeout=600, path_timeout=60,
@@ -496,7 +535,8 @@ HARNESSES = [
                "models/mini_rules",
         stubs=_STUBS + _STUB_DICT, outside=_OUT),
     R.H("def_duplicate", _T_DUP,
-        quick=R.tier(cells=R.product_cells([{"VP_K": 0}], [{"VP_VIA": 0}, {"VP_VIA": 2}]), env={"VP_N": 2},
+        quick=R.tier(cells=R.product_cells([{"VP_K": 0}], [{"VP_VIA": 0}, {"VP_VIA": 2}]),
+                     env={"VP_N": 2, "VP_NODELIM": 1},
                      timeout=300,
                      bound="first definition 'aB'; second '(Definition/' + n2 + '/#, (C/#))' for every "
                            "printable-ASCII n2 with 1 <= len(n2) <= 2; added via a second string or by merging "
@@ -509,7 +549,8 @@ HARNESSES = [
              "and ignored (the first entry stays untouched); any other acceptable one is added silently",
         oracle="models/defs_ref.py accept_all() (D6)", stubs=_STUBS + _STUB_DICT, outside=_OUT),
     R.H("expand_shrink_algebra", _T_ALG,
-        quick=R.tier(cells=_alg_cells(3), env={"VP_N": 1, "VP_M": 3, "VP_NDEFS": 3, "VP_POSSET": 1}, timeout=300,
+        quick=R.tier(cells=_alg_cells(3), env={"VP_N": 1, "VP_M": 3, "VP_NDEFS": 3, "VP_POSSET": 1, "VP_NODELIM": 1},
+                     timeout=300,
                      bound="annotations 'G, (U, B)' and 'Def/ef, (U, Def/AB)', U = Def/<nm>[/<v>] or its written "
                            "Def-expand group; nm = any letter-case spelling of ab | cd | ef; every printable-ASCII "
                            "v with len(v) <= 1; every sequence of <= 3 operations over {expand_defs, shrink_defs, "
@@ -523,7 +564,7 @@ HARNESSES = [
              "shrink.expand = identity; a copy is a different object and leaves its source unchanged",
         oracle="models/defs_ref.py Annot.render() (E1-E3)", stubs=_STUBS, outside=_OUT),
     R.H("defexpand_valid", _T_DX,
-        quick=R.tier(cells=_dx_cells(3), env={"VP_N": 1, "VP_NDEFS": 3}, timeout=200,
+        quick=R.tier(cells=_dx_cells(3), env={"VP_N": 1, "VP_NDEFS": 3, "VP_NODELIM": 1}, timeout=300,
                      bound="written groups (Def-expand/<nm>[/<v>], content[<w>]) in 7 variations (exact, content "
                            "order reversed, tag after content, sibling missing / extra, second group, no content); "
                            "nm = any letter-case spelling of ab | cd | ef; printable-ASCII v, w with len <= 1"),
